@@ -93,6 +93,12 @@ def execute(ctx, case):
     ths = np.concatenate([rng.uniform(inner_lo, inner_hi, 6), rng.choice(allv, 4), np.nextafter(rng.choice(allv, 2), np.inf), np.nextafter(rng.choice(allv, 2), -np.inf),
                           [inner_lo, inner_hi, lo_, hi_]])
     C(np.array_equal(s.cm(ths).matrix, mt.cm(ths).matrix), "confusion matrices differ between declared and materialised easy samples", "easy-cm", thresholds=ths)
+    # "at every threshold", however the threshold is handed over: a Python float, a numpy scalar, a 0-d array, a one-element list, a 2-d grid
+    for j, form in enumerate(("pyfloat", "npfloat", "0d", "list1", "grid")):
+        t_ = float(ths[(case.get("_seed", 0) + j) % len(ths)])
+        x_ = {"pyfloat": t_, "npfloat": np.float64(t_), "0d": np.asarray(t_), "list1": [t_], "grid": ths[:6].reshape(2, 3)}[form]
+        C(np.array_equal(s.cm(x_).matrix, mt.cm(x_).matrix) and np.array_equal(np.asarray(s.tpr(x_)), np.asarray(mt.tpr(x_)), equal_nan=True) and np.array_equal(np.asarray(s.tnr(x_)), np.asarray(mt.tnr(x_)), equal_nan=True),
+          "confusion matrix / rates differ between declared and materialised easy samples for a threshold given in another form", "easy-cm-form", form=form, threshold=t_)
     for m in METRICS:
         C(np.array_equal(getattr(s, m)(ths), getattr(mt, m)(ths), equal_nan=True), "a rate differs between declared and materialised easy samples", "easy-rate", metric=m)
     C(abs(s.auc() - mt.auc()) <= 1e-9, "full AUC differs", "easy-auc", auc_easy=s.auc(), auc_materialised=mt.auc())
